@@ -228,7 +228,7 @@ def c13_sender_honest(tree, ob):
         cur = getattr(cur, '_parent', None)
     if swallowed:
         ob.violate(UAGENT, fs.qual, src(sd)[:60] + ' inside try / except without re-raise', 'a datagram the socket refused (EAGAIN, EMSGSIZE) is only logged: the pacing loop takes it for sent, the transfer '
-                   'ends as "success" with a segment that never left', sd)
+                   'ends as "success" with a segment that never left', sd, sure=True)
     else:
         ob.site(UAGENT, sd, 'a refused datagram raises out of the sender')
     cls = tree.klass(UAGENT, 'TxSendWait')
@@ -239,7 +239,7 @@ def c13_sender_honest(tree, ob):
             ob.site(UAGENT, st, 'pacing credit ' + ('+=' if isinstance(st.op, ast.Add) else '-=') + ' in ' + f.name)
         else:
             ob.violate(UAGENT, 'TxSendWait.' + f.name, src(st)[:70], 'the pacing credit is set (capped, reset) instead of accumulated and spent: below the size of the datagram that waits for it, it never '
-                       'reaches that size again and the transfer -- and all behind it -- is never sent', st)
+                       'reaches that size again and the transfer -- and all behind it -- is never sent', st, sure=True)
 
 
 def c13b(tree, ob):
